@@ -44,11 +44,15 @@ type relState struct {
 	reqs  map[string]*reqTrack
 	k3ctx map[string]bool
 	k3any bool
+	// C12: per context, the response threshold in force when its current batch started (at creation:
+	// the threshold it was created with) -- the value the response callback of that batch is judged by,
+	// whatever the owning module did to the context's threshold since
+	batchThr map[string]uint32
 }
 
 func (m *Monitors) relInit() *relState {
 	if m.rel == nil {
-		m.rel = &relState{reqs: map[string]*reqTrack{}, k3ctx: map[string]bool{}}
+		m.rel = &relState{reqs: map[string]*reqTrack{}, k3ctx: map[string]bool{}, batchThr: map[string]uint32{}}
 	}
 	return m.rel
 }
@@ -232,6 +236,7 @@ func (m *Monitors) relational(o *Op, res string, pre *Pre, s *Snap, bal map[int6
 	m.c07(o, res, f, pre, s, bal, refunds)
 	m.c09(o, res, f, pre, s, plans)
 	m.c10(o, res, f, pre, s)
+	m.c12cb(o, res, f, pre, s)
 	m.c16finished(f, pre, s)
 
 	// forget nothing, but note the requests whose records are all gone
@@ -631,7 +636,13 @@ func hexUpperToBytes(s string) []byte {
 func (m *Monitors) rightful(o *Op, pre *Pre) (ok bool, meaningful bool, what string) {
 	a := m.r.a
 	ps := pre.snap
-	signer := string(a.addr(o.signer()))
+	signer := ""
+	if o.isModOp() {
+		// no signature: the authority is the owning module's, which names the consumer it acts for
+		signer = string(a.addr(o.Who))
+	} else {
+		signer = string(a.addr(o.signer()))
+	}
 	svc := a.svcName[o.Svc]
 	if o.NameOverride != "" {
 		svc = o.NameOverride
@@ -671,6 +682,13 @@ func (m *Monitors) rightful(o *Op, pre *Pre) (ok bool, meaningful bool, what str
 			return false, true, "nobody (module-created context)"
 		}
 		return string(rc.Consumer) == signer, true, "context consumer"
+	case "modupd", "modpause", "modstart", "modkill":
+		// keeper API, CheckAuthority(..., false): the named consumer must be the context's
+		rc, found := ps.Ctxs[string(ctxID(o.Tx, o.Idx))]
+		if !found {
+			return false, false, ""
+		}
+		return string(rc.Consumer) == signer, true, "context consumer named by the owning module"
 	case "respond":
 		q, found := ps.Reqs[string(reqID(o.Tx, o.Idx, o.Batch, o.RHeight, o.RIndex))]
 		if !found {
@@ -712,7 +730,11 @@ func (m *Monitors) c05(o *Op, res string, f *stepFacts, pre *Pre, s *Snap, bal m
 		if meaningful && !ok {
 			m.evals["C05"]++
 			if res == "ok" {
-				m.fail("C05", "%s signed by %d succeeded; the rightful party is the %s", o.Kind, o.signer(), what)
+				by := o.signer()
+				if o.isModOp() {
+					by = o.Who
+				}
+				m.fail("C05", "%s signed by %d succeeded; the rightful party is the %s", o.Kind, by, what)
 			}
 		}
 	}
@@ -726,7 +748,7 @@ func (m *Monitors) c05(o *Op, res string, f *stepFacts, pre *Pre, s *Snap, bal m
 		return
 	}
 	signer := o.signer()
-	if o.Kind == "modcall" {
+	if o.Kind == "modcall" || o.isModOp() {
 		signer = -999 // keeper API: debits nobody
 	}
 	lowered := false
@@ -1223,7 +1245,7 @@ func (m *Monitors) c09(o *Op, res string, f *stepFacts, pre *Pre, s *Snap, plans
 	}
 	target := ""
 	switch o.Kind {
-	case "call", "modcall", "pause", "start", "kill", "updctx":
+	case "call", "modcall", "pause", "start", "kill", "updctx", "modupd", "modpause", "modstart", "modkill":
 		target = string(ctxID(o.Tx, o.Idx))
 	case "respond":
 		target = string(ctxID(o.Tx, o.Idx))
@@ -1300,22 +1322,39 @@ func (m *Monitors) c09(o *Op, res string, f *stepFacts, pre *Pre, s *Snap, plans
 			bad("not the target of the op")
 			continue
 		}
+		if (o.isModOp() && x.ModuleName == "") || ((o.Kind == "pause" || o.Kind == "start" || o.Kind == "kill" || o.Kind == "updctx") && x.ModuleName != "") {
+			bad("messages drive only contexts without a module, the keeper API only contexts of a module")
+			continue
+		}
 		switch o.Kind {
-		case "pause":
+		case "pause", "modpause":
 			if !(x.State == types.RUNNING && x.Repeated && y.State == types.PAUSED) || td != "" || bd != "" || ctrCh {
 				bad("pause moves only running+repeated to paused")
 			}
-		case "start":
+		case "start", "modstart":
 			if !(x.State == types.PAUSED && y.State == types.RUNNING) || td != "" || bd != "" || ctrCh {
 				bad("start moves only paused to running")
 			}
-		case "kill":
+		case "kill", "modkill":
 			if !(x.Repeated && y.State == types.COMPLETED) || td != "" || bd != "" || ctrCh {
 				bad("kill moves only a repeated context to completed")
 			}
 		case "updctx":
 			if stateCh || bd != "" || ctrCh || strings.Contains(td, "threshold") {
 				bad("update changes only providers, cap, timeout, frequency, total")
+			}
+		case "modupd":
+			// the only op that changes the response threshold; the per-batch copy stays as recorded at the batch's start
+			if stateCh || bd != "" || ctrCh {
+				bad("module update changes only providers, threshold, cap, timeout, frequency, total")
+			}
+			if x.ResponseThreshold != y.ResponseThreshold {
+				want := uint32(o.Thr)
+				if y.ResponseThreshold != want || want == 0 || int(want) > len(y.Providers) {
+					bad(fmt.Sprintf("threshold %d -> %d, requested %d with %d providers", x.ResponseThreshold, y.ResponseThreshold, o.Thr, len(y.Providers)))
+				}
+			} else if o.Thr != 0 && uint32(o.Thr) != x.ResponseThreshold {
+				bad(fmt.Sprintf("accepted module update requested threshold %d, it stayed %d", o.Thr, x.ResponseThreshold))
 			}
 		case "respond":
 			okBook := y.BatchResponseCount == x.BatchResponseCount+1 && y.BatchRequestCount == x.BatchRequestCount && y.BatchResponseThreshold == x.BatchResponseThreshold
@@ -1441,6 +1480,46 @@ func (m *Monitors) c10(o *Op, res string, f *stepFacts, pre *Pre, s *Snap) {
 			if t := m.ctxSeen[id]; t != nil && t.createdAt == f.H && x.State == types.RUNNING && x.BatchCounter == 0 {
 				m.evals["C10"]++
 				m.fail("C10", "%scontext %s removed at the end of its creation block without a first batch", m.tagCtx(id), ctxLine([]byte(id)))
+			}
+		}
+	}
+}
+
+// c12cb: the response callback of a module context reports an error exactly when the batch delivered
+// fewer non-empty outputs than the response threshold that was in force WHEN THE BATCH STARTED (the owning
+// module may have changed the context's threshold since; only the next batch sees that).
+func (m *Monitors) c12cb(o *Op, res string, f *stepFacts, pre *Pre, s *Snap) {
+	st := m.rel
+	ps := pre.snap
+	if res == "ok" {
+		// callbacks of this step first: within an EndBlock a batch is completed (expiry phase) before the next one starts
+		for _, c := range m.r.w.cbLog {
+			if c.kind != "r" {
+				continue
+			}
+			id := string(c.ctxID)
+			thr, ok := st.batchThr[id]
+			if !ok {
+				continue
+			}
+			m.evals["C12.cb"]++
+			if want := len(c.outs) < int(thr); c.err != want {
+				m.fail("C12", "%sresponse callback of context %s: %d outputs, threshold in force when the batch started %d: error flag is %v, expected %v",
+					m.tagCtx(id), ctxLine(c.ctxID), len(c.outs), thr, c.err, want)
+			}
+		}
+	}
+	for id, y := range s.Ctxs {
+		x, inPre := ps.Ctxs[id]
+		switch {
+		case !inPre:
+			st.batchThr[id] = y.ResponseThreshold
+		case y.BatchCounter != x.BatchCounter:
+			st.batchThr[id] = x.ResponseThreshold // EndBlock changes no terms: the threshold the decision was taken with
+			if y.BatchResponseThreshold != x.ResponseThreshold {
+				m.evals["C12.cb"]++
+				m.fail("C12", "%sbatch %d of context %s started with threshold %d in force, its per-batch threshold is recorded as %d",
+					m.tagCtx(id), y.BatchCounter, ctxLine([]byte(id)), x.ResponseThreshold, y.BatchResponseThreshold)
 			}
 		}
 	}
